@@ -133,8 +133,8 @@ func c07Check(r *core.Rng, t ast.Node, family string) core.Result {
 func init() {
 	small := c07Small()
 	register(&core.Property{
-		ID: "C07",
-		Rule: "trees: (a) an enumerated set of " + fmt.Sprint(len(small)) + " small trees — every ordered pair of the 17 binary operator spellings as parent/child on each side, every unary over/under every binary and unary, index/slice over and under each operator, function literals as operands, and 21 statement forms in every body position (if/else arms, while, for, function body, function literal in assignment/argument/array element, block member) — enumerated completely in both tiers; (b) seeded random syntactic trees to depth 8 (ill-typed allowed). Each tree is printed in the canonical layout and 4 random layouts (redundant parentheses, compact/random blanks and tabs, blank lines in blocks and arrays, newlines after '[' and ',', comments, braced single statements) and every text must parse back to the same tree. non-trivial = at least 3 nodes; distinct by tree.",
+		ID:          "C07",
+		Rule:        "trees: (a) an enumerated set of " + fmt.Sprint(len(small)) + " small trees — every ordered pair of the 17 binary operator spellings as parent/child on each side, every unary over/under every binary and unary, index/slice over and under each operator, function literals as operands, and 21 statement forms in every body position (if/else arms, while, for, function body, function literal in assignment/argument/array element, block member) — enumerated completely in both tiers; (b) seeded random syntactic trees to depth 8 (ill-typed allowed). Each tree is printed in the canonical layout and 4 random layouts (redundant parentheses, compact/random blanks and tabs, blank lines in blocks and arrays, newlines after '[' and ',', comments, braced single statements) and every text must parse back to the same tree. non-trivial = at least 3 nodes; distinct by tree.",
 		Assumptions: []string{"the printer (harness/ast/print.go) is the statement of the documented grammar; trees the grammar cannot denote are not generated (single-statement blocks, blocks directly inside blocks, negative literals, keyword names, statements on an assignment's right-hand side)", "strings contain no backslash; floats are dyadic rationals printed in plain decimal"},
 		Families: []core.Family{
 			{Name: "small", Count: func(string) int { return len(small) }, Run: func(ctx *core.Ctx, idx int) core.Result {
